@@ -359,8 +359,17 @@ func c11Exec(r *vf.Run, k c11Case, dir string) []finding {
 					_, operr = m.Write(&b)
 					got = b.Bytes()
 				case 2:
+					// the first bytes through Read, the rest through io.Copy (which uses a WriterTo if the Reader has one)
 					rd = m.NewReader()
-					got, operr = io.ReadAll(rd)
+					head := make([]byte, 32)
+					n, herr := io.ReadFull(rd, head)
+					var rest bytes.Buffer
+					if herr == nil {
+						_, operr = io.Copy(&rest, rd)
+					} else if herr != io.ErrUnexpectedEOF && herr != io.EOF {
+						operr = herr
+					}
+					got = append(head[:n], rest.Bytes()...)
 				case 3:
 					if rd == nil {
 						rd = m.NewReader()
@@ -522,7 +531,7 @@ func init() {
 	vf.Register(&vf.Check{
 		ID: "C11", Title: "rendering is repeatable and all output paths agree",
 		Run: func(r *vf.Run) {
-			r.SetRule("message shapes {single (also with a transfer encoding outside go-mail's constants), PGP/MIME encrypted and signed (caller-supplied parts), alternative, body+attachment, body+embed, attachment-only, two attachments only, three preformatted headers next to a dozen generic headers (custom X- fields, importance, bulk, organisation), S/MIME single, S/MIME+attachment, nested multiparts with a caller-fixed boundary (plain and S/MIME)} × file source {io.Reader (buffer, *bytes.Reader partially consumed, *strings.Reader, *os.File), read-seeker (fresh and partially consumed), file, fs.FS, text template} × file encoding {base64, 8bit, QP} × ALL sequences of length 2..L (at length 4 without the two thin wrappers Write / WriteToTempFile) over the 9 render operations {WriteTo, Write, NewReader, UpdateReader, WriteToFile, WriteToTempFile, Send (server commit log), WriteTo into a sink failing at 0, … failing mid-way, WriteTo / NewReader / UpdateReader / Send while the content source (body or file writer function) fails, a Reader of which only 64 bytes are read, a Reader copied into a failing destination} × map-iteration start 0..7 per operation (<=1 operation deviating from start 0; thorough <=2) through the runtime seam; Date, Message-ID and boundaries are generated by go-mail on first use; plus a failure-offset sweep per configuration: [WriteTo, WriteTo into a sink that starts failing at byte K, WriteTo, WriteTo] for EVERY K of the output × {short write, rejected write}; every successful output must equal the first; plus the Msg that QuickSend builds, delivers and returns, rendered again through WriteTo (twice) and NewReader against what the server received; distinct by (configuration, operation sequence, map starts)")
+			r.SetRule("message shapes {single (also with a transfer encoding outside go-mail's constants), PGP/MIME encrypted and signed (caller-supplied parts), alternative, body+attachment, body+embed, attachment-only, two attachments only, three preformatted headers next to a dozen generic headers (custom X- fields, importance, bulk, organisation), S/MIME single, S/MIME+attachment, nested multiparts with a caller-fixed boundary (plain and S/MIME)} × file source {io.Reader (buffer, *bytes.Reader partially consumed, *strings.Reader, *os.File), read-seeker (fresh and partially consumed), file, fs.FS, text template} × file encoding {base64, 8bit, QP} × ALL sequences of length 2..L (at length 4 without the two thin wrappers Write / WriteToTempFile) over the 9 render operations {WriteTo, Write, NewReader (32 bytes through Read, the rest through io.Copy), UpdateReader, WriteToFile, WriteToTempFile, Send (server commit log), WriteTo into a sink failing at 0, … failing mid-way, WriteTo / NewReader / UpdateReader / Send while the content source (body or file writer function) fails, a Reader of which only 64 bytes are read, a Reader copied into a failing destination} × map-iteration start 0..7 per operation (<=1 operation deviating from start 0; thorough <=2) through the runtime seam; Date, Message-ID and boundaries are generated by go-mail on first use; plus a failure-offset sweep per configuration: [WriteTo, WriteTo into a sink that starts failing at byte K, WriteTo, WriteTo] for EVERY K of the output × {short write, rejected write}; every successful output must equal the first; plus the Msg that QuickSend builds, delivers and returns, rendered again through WriteTo (twice) and NewReader against what the server received; distinct by (configuration, operation sequence, map starts)")
 			r.Assume("map iteration order is owned through a runtime build-overlay seam (start offset 0..7 for maps of <= 8 entries)", "for S/MIME the per-render outer boundary and signature value are excluded: the signed entity and the remaining top-level fields are compared",
 				"Send output compares modulo the transport's final CRLF", "8bit file content with bare LF/CR compares modulo line-break canonicalisation across the Send path (the dot-writer canonicalises it; such content is illegal on the wire)")
 			if !mapseam.Enabled {
